@@ -368,7 +368,7 @@ impl Prop for C08 {
         for fp in &s {
             ensure!(out, by_marker.insert(marker(fp), fp.clone()).is_none(), "marker {} appears twice in the reference stream", marker(fp));
         }
-        let mut check_fps = |name: &str, v: &[Fp], out: &mut Outcome| -> bool {
+        let check_fps = |name: &str, v: &[Fp], out: &mut Outcome| -> bool {
             for fp in v {
                 match by_marker.get(&marker(fp)) {
                     Some(r) if r == fp => {}
